@@ -912,7 +912,12 @@ class Interp(StmtMixin, ExtMixin, OpsMixin, InterpCore):
             return self.call_function(FuncV(v.ci.lookup("__len__"), selfv=v), [], {}, node)
         return ExtMixin.x_len(self, args, kwargs, node, env)
 
-    def x_bisect_bisect_left(self, args, kwargs, node, env):
+    def x_bisect_bisect_right(self, args, kwargs, node, env):
+        return self.x_bisect_bisect_left(args, kwargs, node, env, right=True)
+
+    x_bisect_bisect = x_bisect_bisect_right
+
+    def x_bisect_bisect_left(self, args, kwargs, node, env, right=False):
         seq, x = args[0], args[1]
         n = self.x_len([seq], {}, node, env)
         hi = n.const()
@@ -936,10 +941,18 @@ class Interp(StmtMixin, ExtMixin, OpsMixin, InterpCore):
         while lo < hi:
             mid = (lo + hi) // 2
             item = self.getitem(seq, Num(ep.const(mid)), node)
-            c = self.compare(ast.Lt(), item, x, node)
+            # bisect_left: a[mid] < x moves right; bisect_right: x < a[mid] moves left (the comparisons the library makes)
+            c = self.compare(ast.Lt(), x, item, node) if right else self.compare(ast.Lt(), item, x, node)
+            if isinstance(c, Cond):
+                c = self.assume(c)
             if not isinstance(c, bool):
                 self.err(node, "bisect comparison is symbolic")
-            if c:
+            if right:
+                if c:
+                    hi = mid
+                else:
+                    lo = mid + 1
+            elif c:
                 lo = mid + 1
             else:
                 hi = mid
